@@ -155,8 +155,6 @@ func cmdCheck(args []string) {
 	os.MkdirAll("/verif/.work", 0o755)
 	work, _ := os.MkdirTemp("/verif/.work", *prop+"-")
 	defer os.RemoveAll(work)
-	dischargeAll(work, all, timeout)
-
 	var ff FindingsFile
 	_ = readJSON("/verif/known_findings.json", &ff)
 	known := map[string]KnownFinding{}
@@ -165,6 +163,12 @@ func cmdCheck(args []string) {
 			known[k.Obligation] = k
 		}
 	}
+	for _, o := range all {
+		if _, isKnown := known[o.Name]; isKnown {
+			o.NoRetry = true // expected to fail: no second, longer attempt
+		}
+	}
+	dischargeAll(work, all, timeout)
 	lock := LockFile{}
 	_ = readJSON("/verif/obligations.lock.json", &lock)
 	locked := map[string]bool{}
